@@ -186,6 +186,9 @@ ATOMS = {
     # strings naming an ignorable hint, a class, a subscripted hint, a union; a string naming nothing
     'str_FwdAny': lambda: 'FwdAny', 'str_FwdObject': lambda: 'FwdObject', 'str_FwdInt': lambda: 'FwdInt', 'str_FwdListInt': lambda: 'FwdListInt',
     'str_FwdOptional': lambda: 'FwdOptional', 'str_FwdNothing': lambda: 'FwdNothingOfThatName', 'str_expr': lambda: 'list[FwdAny] | None',
+    # strings whose *compilation* overflows (RecursionError / MemoryError from the parser), or that evaluate to nonsense
+    'str_long_union': lambda: 'int|' * 3000 + 'str', 'str_attr_chain': lambda: 'int' + '.real' * 20000, 'str_minus_chain': lambda: '-' * 20000 + '1',
+    'str_division': lambda: '1/0', 'str_subscript_int': lambda: 'int[str]', 'str_call': lambda: "int('x')",
     # ordinary
     'int': lambda: int, 'str': lambda: str, 'float': lambda: float, 'bool': lambda: bool, 'NoneType': lambda: type(None),
     'None': lambda: None, 'object': lambda: object, 'list': lambda: list, 'dict': lambda: dict, 'tuple': lambda: tuple,
